@@ -686,7 +686,10 @@ impl<'a> Gen<'a> {
         // iterations: unbounded recursion up to the stream size limit, at a cost cubic in it
         let nested_on_same = self.folding.contains(&s);
         self.folding.push(s.clone());
-        let mut body = self.gen_ins(Ctx { guard: false, ..ctx });
+        // a catchable failure inside the body of a stream fold does not leave the fold (the interpreter
+        // ends that generation's iterations and goes on), so the body may fail without an xor of its own
+        let body_may_fail = self.cfg.errors && self.rng.chance(1, 3);
+        let mut body = self.gen_ins(Ctx { guard: body_may_fail, ..ctx });
         self.folding.pop();
         if self.cfg.rec_streams && !nested_on_same && shape == Shape::Str && self.rng.chance(1, 3) {
             // bounded recursion: while visiting the unique seed value, append one more literal to
